@@ -147,9 +147,9 @@ class Discipline(BaseDiscipline):
     ) -> None:
         self._linearization_mode = linearization_mode
 
-        if (
-            linearization_mode in set(self.ApproximationMode)
-            and self._jac_approx is None
+        if linearization_mode in set(self.ApproximationMode) and (
+            self._jac_approx is None
+            or self._jac_approx.approx_method != linearization_mode
         ):
             self.set_jacobian_approximation(linearization_mode)
 
